@@ -91,11 +91,19 @@ where
     total
 }
 
+thread_local! {
+    /// shrink budget of the next runners created on this thread (expensive checks lower it)
+    pub static SHRINK_ITERS: Cell<u32> = Cell::new(4000);
+}
+pub fn set_shrink_iters(n: u32) {
+    SHRINK_ITERS.with(|c| c.set(n));
+}
+
 pub fn proptest_runner(seed: u64, cases: u32) -> TestRunner {
     let mut cfg = Config::default();
     cfg.cases = cases;
     cfg.failure_persistence = None;
-    cfg.max_shrink_iters = 4000;
+    cfg.max_shrink_iters = SHRINK_ITERS.with(|c| c.get());
     cfg.max_global_rejects = 1_000_000;
     cfg.max_local_rejects = 1_000_000;
     cfg.verbose = 0;
